@@ -235,3 +235,13 @@ pub fn __slice_first_is_zero(s: &[u64]) -> (r: bool)
 pub fn __rposition_nonzero_end(s: &[u64]) -> (r: usize)
     ensures r <= s@.len(), r > 0 ==> s@[r - 1] != 0, forall|j: int| r <= j < s@.len() ==> s@[j] == 0
 { unimplemented!() }
+
+//@ assume __pos_not_ones : rule R12b2: std semantics of `s.iter().position(|&digit| !digit != 0)`
+#[verifier::external_body]
+pub fn __pos_not_ones(s: &[u64]) -> (r: Option<usize>)
+    ensures
+        match r {
+            Some(i) => i < s.len() && s[i as int] != 0xffff_ffff_ffff_ffffu64 && forall|j: int| 0 <= j < i ==> s[j] == 0xffff_ffff_ffff_ffffu64,
+            None => forall|j: int| 0 <= j < s.len() ==> s[j] == 0xffff_ffff_ffff_ffffu64,
+        }
+{ unimplemented!() }
